@@ -110,6 +110,14 @@ type c12Scenario struct {
 	closers   []string // "close", "forceclose"
 	enabled   any      // value of enabled (nil, true, false)
 	closureMS int64
+	pstep     string // plugin step id: "run" (default, has a cancel signal handler) or "nosig"
+}
+
+func (sc *c12Scenario) stepID() string {
+	if sc.pstep == "" {
+		return "run"
+	}
+	return sc.pstep
 }
 
 type c12Obs struct {
@@ -122,6 +130,7 @@ type c12Obs struct {
 
 var c12Runnable step.RunnableStep
 var c12Lifecycle step.Lifecycle[step.LifecycleStageWithSchema]
+var c12nLifecycle step.Lifecycle[step.LifecycleStageWithSchema] // plugin step without signal handlers
 var c12fRunnable step.RunnableStep
 var c12fLifecycle step.Lifecycle[step.LifecycleStageWithSchema]
 
@@ -146,6 +155,9 @@ func c12Prepare() error {
 		return err
 	}
 	c12Runnable, c12Lifecycle = rs, lc
+	if c12nLifecycle, err = rs.Lifecycle(map[string]any{"step": "nosig"}); err != nil {
+		return err
+	}
 	// the loop provider over the real prepared sub-workflow
 	reg, _, err := newRegistry()
 	if err != nil {
@@ -178,7 +190,7 @@ func c12Body(sc *c12Scenario, obs *c12Obs) func() {
 		if sc.kind == "foreach" {
 			runnable = c12fRunnable
 		}
-		rs, err := runnable.Start(map[string]any{"step": "run"}, "s", h)
+		rs, err := runnable.Start(map[string]any{"step": sc.stepID()}, "s", h)
 		if err != nil {
 			panic(err)
 		}
@@ -299,6 +311,9 @@ func c12Check(sc *c12Scenario, x *vrt.Exec, obs *c12Obs) []vrt.Violation {
 	}
 	declaredOut := map[string]map[string]bool{}
 	lifecycle := c12Lifecycle
+	if sc.pstep == "nosig" {
+		lifecycle = c12nLifecycle
+	}
 	if sc.kind == "foreach" {
 		lifecycle = c12fLifecycle
 	}
@@ -475,6 +490,20 @@ func c12Scenarios(tier string) []*c12Scenario {
 					script: sc.s, order: ord, dup: vr.dup, stop: vr.stop, closers: vr.closers, enabled: vr.enabled, closureMS: vr.closure,
 				})
 			}
+		}
+	}
+	// a plugin step without a cancel signal handler: closing it while it runs takes another path
+	for _, sc := range scripts {
+		if sc.n == "nodeploy" || sc.n == "deployhang" || sc.n == "slowdeploy" || sc.n == "mismatch" {
+			continue
+		}
+		for _, vr := range []variant{{"plain", false, nil, "", nil, -1}, {"close", false, []string{"close"}, "", nil, -1}, {"forceclose", false, []string{"forceclose"}, "", nil, -1},
+			{"close+forceclose", false, []string{"close", "forceclose"}, "", nil, 0}, {"2forceclose", false, []string{"forceclose", "forceclose"}, "", nil, 50}} {
+			// no stop-condition variant: the lifecycle disables stop_if for a step without the cancel signal
+			out = append(out, &c12Scenario{pstep: "nosig",
+				name:   fmt.Sprintf("nosig/%s/order0/%s", sc.n, vr.n),
+				script: sc.s, order: orders[0], dup: vr.dup, stop: vr.stop, closers: vr.closers, enabled: vr.enabled, closureMS: vr.closure,
+			})
 		}
 	}
 	for _, sc := range scripts {
